@@ -41,6 +41,9 @@ def coq_query(q):
     if t[0] == "QProg":
         k, l = t[1].split(None, 1)
         return f"QProg {k} {l}%N"
+    if t[0] == "QBody":
+        a, b, c = t[1].split("] [")
+        return f"QBody {a}]%N [{b}]%N [{c}%N"
     if t[0] == "QFirst":
         return f"QFirst {t[1]}%N"
     if t[0] == "QRecycle":
@@ -174,6 +177,44 @@ def nat_oracle(cs, ps, v):
             return ("native:" + nm.split("(")[0], f"{nm} on {s!r} (pad {pad!r}) gives {g!r}, by characters it is {w.encode('utf-8')!r}")
     if tail != ints:
         return ("native:byte_at-or-find", f"byte_at at -1, 0, len-1, len and find of 4 needles on {s!r} give {tail}, expected {ints}")
+    return None
+
+
+def body_oracle(cs, ds, p, v):
+    """for-each bodies with continue / break / nesting / a closure / an early return / locals and calls: what each loop
+    must compute when the iteration yields the string's characters, whatever the body does (no model)."""
+    if v[0] in (-9, -8):
+        return ("body-run-failed:%d:%d" % (v[0], v[1]), f"program failed / output unparsable: {v[:2]}")
+    u = lambda l: "".join(map(chr, l)).encode("utf-8")
+    w = lambda c: len(chr(c).encode("utf-8"))
+    n = len(cs)
+    pre = []
+    for c in cs:
+        if c == p:
+            break
+        pre.append(c)
+    narrow = [a for a in cs if w(a) <= 2]
+    want = [("continue-by-byte-length: items", n), ("continue-by-byte-length: wide", sum(1 for c in cs if w(c) > 1)),
+            ("continue-by-parity: items", n), ("continue-by-parity: kept", u(cs[0::2])),
+            ("continue-on-equal: items", n), ("continue-on-equal: others", sum(1 for c in cs if c != p)),
+            ("break-on-equal: items before", len(pre)), ("break-on-equal: prefix", u(pre)),
+            ("nested continue: inner pairs", sum(sum(1 for b in ds if b != a) for a in narrow)), ("nested continue: outer completed", len(narrow)),
+            ("closure capturing the item: concatenation", u(cs)),
+            ("early return: position of the character", cs.index(p) if p in cs else -1), ("early return: absent character", cs.index(0) if 0 in cs else -1),
+            ("locals and calls: sum", sum(3 * w(c) for c in cs)), ("locals and calls: byte sum", len(u(cs)))]
+    pos = 0
+    try:
+        for name, exp in want:
+            if isinstance(exp, bytes):
+                got, pos = parse_framed(v, pos)
+            else:
+                got = v[pos]; pos += 1
+            if got != exp:
+                return ("loop-body:" + name.split(":")[0].replace(" ", "-"), f"{name} = {got!r}, by the string's {n} characters it is {exp!r}")
+        if pos != len(v):
+            raise ValueError("trailing data")
+    except (ValueError, IndexError) as e:
+        return ("body-obs-unparsable", f"observation vector malformed: {e}")
     return None
 
 
@@ -338,7 +379,7 @@ def run(ctx):
             ctx.violation("c20:harness-crash", "hx_utf8 crashed (panic outside run_program?)",
                           {"profile": prof, "output_tail": out[-2000:]})
             return
-        cases, meta, srcs, nat_srcs, rec_srcs, first_srcs = [], [], {}, {}, {}, {}
+        cases, meta, srcs, nat_srcs, rec_srcs, first_srcs, body_srcs = [], [], {}, {}, {}, {}, {}
         for line in out.split("\n"):
             p = line.split("\t")
             if p[0] == "G":
@@ -347,9 +388,11 @@ def run(ctx):
                 nat_srcs[p[1]] = p[3]
             elif p[0] == "I":
                 rec_srcs[p[1]] = p[3]
+            elif p[0] == "L":
+                body_srcs[p[1]] = p[3]
             elif p[0] == "J":
                 first_srcs[p[1]] = p[3]
-            elif p[0] in ("S", "P", "N", "R", "F") and len(p) == 4:
+            elif p[0] in ("S", "P", "N", "R", "F", "B") and len(p) == 4:
                 cases.append((coq_query(p[2]), zlist(p[3].split())))
                 meta.append((p[0], p[1], p[2], [int(x) for x in p[3].split()]))
         total += len(cases) + ncorp
@@ -363,6 +406,21 @@ def run(ctx):
                 if d:
                     nd += 1
                     ctx.violation("c20:std:" + m, d, {"query": q, "observed": v, "profile": prof})
+                continue
+            if tag == "B":
+                parts = q[q.index("[") + 1:].rstrip("]").split("] [")
+                f = lambda t: [int(x) for x in t.split(";")] if t.strip() else []
+                cs, ds, pv = f(parts[0]), f(parts[1]), f(parts[2])
+                cid, form, scope, opt = m.split(":")
+                dist["loop_body_shape_runs"] = dist.get("loop_body_shape_runs", 0) + 1
+                distinct.add(("body", tuple(cs), tuple(ds), tuple(pv), form, scope, opt))
+                d = body_oracle(cs, ds, pv[0], v)
+                if d:
+                    nd += 1
+                    if nd <= 5:
+                        ctx.violation(f"c20:{d[0]}:{form}", f"{d[1]} (string {''.join(map(chr, cs))!r}, {form}, {scope}, -{opt})",
+                                      {"scalars": cs, "inner": ds, "pivot": pv, "form": form, "opt": opt, "observed": v[:80],
+                                       "program": vlib_unesc(body_srcs.get(cid, "")), "profile": prof})
                 continue
             if tag == "F":
                 cs = scalars_of(q)
@@ -449,6 +507,10 @@ def run(ctx):
                                          "model": (m or "")[:600]} for i, m in zip(bad, mo)]
             for i in bad[:3]:
                 tag, m, q, v = meta[i]
+                if tag == "B":
+                    cid = m.split(":")[0]
+                    ctx.violation("c20:model-mismatch:loop-body:" + m.split(":")[1], f"for-each bodies with continue / break / nesting differ from the model's prediction ({m})",
+                                  {"case": m, "query": q[:300], "observed": v[:80], "program": vlib_unesc(body_srcs.get(cid, "")), "profile": prof})
                 if tag == "F":
                     cid = m.split(":")[0]
                     ctx.violation("c20:model-mismatch:loop-return:" + m.split(":")[-1], f"functions whose loop body ends in `return` differ from the model's prediction ({m})",
